@@ -946,6 +946,14 @@ func (fx *Fx) specCall(env *SpecEnv, e *SCall) Val {
 			nn := *env
 			nn.st, nn.inOld = hs, false
 			return fx.specEval(&nn, e.Args[1])
+		case "ndirect", "ndirectTrue":
+			// ndirect(code("f")) / ndirectTrue(code("f")): direct calls of f made so far by this activation (callee flagged
+			// countresult), and how many of them returned true
+			off := 0
+			if id.Name == "ndirectTrue" {
+				off = 1
+			}
+			return Val{T: fmt.Sprintf("(select %s (+ (* 2 %s) %d))", st.heap("NRT", "(Array Int Int)"), arg(0).T, off), S: "Int", GT: intT}
 		case "ncallsCode":
 			// ncallsCode(code("...")): calls made so far through function values whose code is the given literal / function
 			return Val{T: fmt.Sprintf("(select %s %s)", st.heap("NC", "(Array Int Int)"), arg(0).T), S: "Int", GT: intT}
@@ -1132,7 +1140,7 @@ func (fx *Fx) specCall(env *SpecEnv, e *SCall) Val {
 			}
 			var parts []string
 			for _, k := range sortedKeys(c.heapSorts()) {
-				if skip[k] || k == "NC" || k == "CNT" || k == "CNC" {
+				if skip[k] || k == "NC" || k == "CNT" || k == "CNC" || k == "NRT" {
 					continue
 				}
 				srt := c.heapSorts()[k]
